@@ -144,6 +144,11 @@ def one_op(p, inner=False):
         parts = [(6, mv), (p.get("misc_w", 5), misc)]
         if p["arcs"]:
             parts += [(p["arcs"], op_arc())]
+        if p.get("stress"):
+            parts += [(6, st.tuples(st.just("stress"),
+                                    st.sampled_from(["roundoff", "roundoff", "tiny_e", "tiny_e", "huge_xy", "huger_xy", "tiny_xy", "inch_feed",
+                                                     "tiny_merge", "huge_merge", "tiny_z", "leave_far"]),
+                                    st.integers(1, 9), st.integers(0, 8)))]
         if not inner and p.get("visits", True):
             parts += [(4, op_visit(p))]
         _CACHE[key] = weighted(parts)
@@ -341,6 +346,8 @@ class Renderer(object):  # pylint: disable=too-many-instance-attributes
             if not words:
                 return
             self.g(g + words, precheck=True)
+        elif k == "stress":
+            self.stress(o)
         elif k == "visit":
             _, rsel, i, j, z, ext, inner, leave = o
             self.op(("mv", "in", rsel, i, j, 3, z, ext, None, "G1"))
@@ -414,6 +421,42 @@ class Renderer(object):  # pylint: disable=too-many-instance-attributes
                 if o[3] is not None:
                     w += " Z" + fmt(o[3])
                 self.g("G92" + w)
+
+    def stress(self, o):
+        """Numeric stress (C07): values for which str(float) would use exponent notation."""
+        _, what, n, m = o
+        pr = self.pr
+        if what == "roundoff":
+            was_abs = pr.abs
+            if was_abs:
+                self.g("G91")
+            for d in ("0.1", "0.2", "-0.3"):
+                self.g("G1 X%s Y%s" % (d, d), precheck=True)
+            if m % 2 == 0:
+                self.g("G1 Z0.1")
+                self.g("G1 Z0.2")
+                self.g("G1 Z-0.3")
+            if was_abs:
+                self.g("G90")
+        elif what == "tiny_e":
+            if self.e_ok() and not self.retracted:
+                tiny = n * 10.0 ** -(5 + m % 6)
+                self.g("G1" + " E" + fmt((pr.e + tiny) / pr.u, 15))
+        elif what in ("huge_xy", "huger_xy", "leave_far") and pr.abs:
+            scale = 1e15 if what != "huger_xy" else 1e22
+            if what == "leave_far":
+                scale = 1e6
+            self.g("G1 X%s Y%s" % (fmt(n * scale / pr.u + 0.5, 3), fmt((m + 1) * scale * 3 / pr.u, 3)), precheck=True)
+        elif what == "tiny_xy" and pr.abs:
+            self.g("G1 X%s Y%s" % (fmt(n * 1e-7, 12), fmt((m + 1) * 1e-9, 12)), precheck=True)
+        elif what == "tiny_z" and pr.abs:
+            self.g("G1 Z%s" % fmt(n * 1e-6 + 0.2 * (m % 2), 9))
+        elif what == "inch_feed":
+            self.g("G1 F%s" % fmt(n * 10.0 ** -(3 + m % 5), 9))
+        elif what == "tiny_merge":
+            self.g(["M204 S%s", "M205 X%s", "M73 P%s"][m % 3] % fmt(n * 1e-7, 9))
+        elif what == "huge_merge":
+            self.g(["M204 T%s", "M205 J%s", "M73 R%s"][m % 3] % ("%d" % (n * 10 ** (16 + m))))
 
     def add_region(self, o):
         _, how, sel = o
